@@ -123,7 +123,32 @@ def gen_case(rng: random.Random, i: int) -> dict:
     strat = S.STRATS[(i // 4) % 3]
     mode = MODES[(i // 12) % 3]
     n_p = 0 if strat != "pause" else rng.choice([2, 5, 9])
-    return {"clock": clock, "strategy": strat, "prog": prog, "cmds": cmds_for(rng, mode, init, n_p, u), "kind": "subset"}
+    kind = "subset"
+    if i % 7 == 3:
+        # a handler changes the error strategy while the run is going on (PAUSE -> a continue strategy or back);
+        # what counts for a failing handler is the strategy in force when it fails
+        to = rng.choice(["log", "warn"]) if strat == "pause" else "pause"
+        hs = [h for h in range(1, len(prog))]
+        for h in rng.sample(hs, min(len(hs), rng.choice([1, 1, 2]))):
+            prog[h].insert(rng.randint(0, len(prog[h])), ["setstrat", to])
+        if rng.random() < 0.3 and hs:
+            prog[rng.choice(hs)].append(["setstrat", strat])
+        n_p = rng.choice([3, 6, 9])
+        kind = "switch"
+    return {"clock": clock, "strategy": strat, "prog": prog, "cmds": cmds_for(rng, mode, init, n_p, u), "kind": kind}
+
+
+def switch_cases():
+    """the smallest programs in which the strategy changes during a run before a handler fails"""
+    out = []
+    for clock in ("float", "int", "dur"):
+        u = S.unit_of(clock)
+        for a, b in (("pause", "log"), ("pause", "warn"), ("log", "pause"), ("warn", "pause")):
+            prog = [[["sched", ["abs", 2 * u], 5, 1], ["sched", ["abs", 4 * u], 5, 2], ["sched", ["abs", 6 * u], 5, 3]],
+                    [["setstrat", b]], [["sched", ["now"], 5, 3], ["fail", "runtime"]], []]
+            out.append({"clock": clock, "strategy": a, "prog": prog,
+                        "cmds": [["init", 0, 0, 10 * u], ["start"], ["start"], ["start"]], "kind": "switch"})
+    return out
 
 
 def prepare(cases, obs):
@@ -142,7 +167,8 @@ def prepare(cases, obs):
 
 def oracle(case, obs, ctx, idx):
     facts = {"fault_hit": False, "pause_resume": False, "continue": False, "failing_step": False,
-             "fault_before_other_events": False, "non_exception_fault_hit": False, "executed": 0}
+             "fault_before_other_events": False, "non_exception_fault_hit": False, "strategy_switched_in_run": False,
+             "fault_under_switched_strategy": False, "executed": 0}
     if "error" in obs:
         return ("driver-error", obs["error"]), facts
     bad_clock = S.log_insane(obs)
@@ -161,14 +187,23 @@ def oracle(case, obs, ctx, idx):
     init = case["cmds"][0]
     end = init[3]
     seg = []
+    seg_str = []          # error strategy in force when the handler of seg[k] returned / failed
+    cur = strat           # strategy in force now (handlers may change it: ["setstrat", x])
+    has_switch = any(a[0] == "setstrat" for body in prog for a in body)
     ended = False
     excl_end = False
     n_fail_total = 0
     for ent in obs["log"]:
         if ent[0] == "exec":
             seg.append(ent)
+            seg_str.append(cur)
             if ent[2] > end:
                 return ("event-executed-after-end", f"event {ent[1]} at {ent[2]}/4, end {end}/4"), facts
+        elif ent[0] == "setstrat":
+            cur = ent[1]
+            facts["strategy_switched_in_run"] = True
+            if seg:
+                seg_str[-1] = cur
         elif ent[0] == "cmd":
             c, r, rs, ps, clk = ent[1], ent[2], ent[3], ent[4], ent[5]
             if r not in ("ok", "refused"):
@@ -180,6 +215,8 @@ def oracle(case, obs, ctx, idx):
                 facts["fault_hit"] = True
                 if any(seg[k][3] in base_h for k in fails_here):
                     facts["non_exception_fault_hit"] = True
+                if has_switch and any(seg_str[k] != strat for k in fails_here):
+                    facts["fault_under_switched_strategy"] = True
             if c[0] == "step" and r == "ok":
                 if len(seg) > 1:
                     return ("step-executed-several-events", f"{len(seg)} events in one step"), facts
@@ -188,23 +225,29 @@ def oracle(case, obs, ctx, idx):
                     if (rs, ps) != ("STOPPED", "STARTED"):
                         return ("failing-step-leaves-inconsistent-state", f"after a failing step: {rs}/{ps}"), facts
             if c[0] in ("start", "runupto", "runuptoincl") and r == "ok":
-                if strat == "pause":
-                    if fails_here:
-                        if fails_here != [len(seg) - 1]:
-                            return ("pause-did-not-stop-after-failing-event",
-                                    f"{c}: executions {[(e[1], e[3]) for e in seg]} (k, handler), failing handlers {sorted(failing_h)}"), facts
-                        if (rs, ps) != ("STOPPED", "STARTED"):
-                            return ("pause-leaves-wrong-state", f"{c}: {rs}/{ps} after the failing event"), facts
-                        facts["pause_resume"] = True
+                pausing = [k for k in fails_here if seg_str[k] == "pause"]
+                desc = f"{c}: executions {[(e[1], e[3], seg_str[k]) for k, e in enumerate(seg)]} (k, handler, strategy in force), failing handlers {sorted(failing_h)}"
+                if pausing:
+                    if pausing[0] != len(seg) - 1:
+                        return ("pause-did-not-stop-after-failing-event", desc), facts
+                    if (rs, ps) != ("STOPPED", "STARTED"):
+                        return ("pause-leaves-wrong-state", f"{c}: {rs}/{ps} after the failing event"), facts
+                    facts["pause_resume"] = True
                 else:
                     if fails_here:
                         facts["continue"] = True
                         if fails_here[-1] < len(seg) - 1:
                             facts["fault_before_other_events"] = True
+                    # nothing paused this run: it must have gone on to its bound
+                    t, inc = (end, True) if c[0] == "start" else (min(c[1], end), c[0] == "runuptoincl" or c[1] > end)
+                    if clk != t:
+                        return ("continue-strategy-in-force-but-run-paused" if fails_here else "run-stopped-short-of-its-bound",
+                                f"clock {clk}/4 after the run, bound {t}/4, state {rs}/{ps}; " + desc), facts
                 if c[0] == "runupto" and rs == "ENDED" and c[1] == end:
                     excl_end = True
             ended = (rs == "ENDED")
             seg = []
+            seg_str = []
     tr, bt = obs["trace"], base["trace"]
     facts["executed"] = len(tr)
     stuck = c03.stuck_at_end(case, obs, base, end, PID)
@@ -221,7 +264,7 @@ def oracle(case, obs, ctx, idx):
     else:
         if tr != bt[:len(tr)]:
             return ("faulty-run-not-a-prefix-of-truncated-run", f"strategy {strat}: {tr[:14]} vs {bt[:14]}"), facts
-    if strat != "pause" and case["cmds"][1] == ["start"] and not ended and base["snaps"][-1][1] == "ENDED":
+    if strat != "pause" and not has_switch and case["cmds"][1] == ["start"] and not ended and base["snaps"][-1][1] == "ENDED":
         return ("continue-strategy-did-not-finish-the-run", f"state {obs['snaps'][1][1:3]} after start under {strat}"), facts
     if why is not None:
         return ("unexpected-observation", why), facts
@@ -233,7 +276,10 @@ RULE = ("tree programs (every executed event has its own handler, <= 11 events; 
         "WARN_AND_CONTINUE, WARN_AND_PAUSE} x {start repeated after each pause, bounded runs, steps}; plus generated DAG / loop "
         "programs with random subsets of failing handlers; non-trivial = distinct case executing >= 3 events in which a failing "
         "handler was actually executed; what a failing handler raises is drawn from RuntimeError, ValueError, KeyError, "
-        "ZeroDivisionError, a custom Exception subclass, StopIteration and a custom BaseException subclass that is not an Exception")
+        "ZeroDivisionError, a custom Exception subclass, StopIteration and a custom BaseException subclass that is not an Exception; "
+        "every seventh generated case (and 12 fixed small ones) has handlers that call set_error_strategy during the run "
+        "(PAUSE <-> a continue strategy) before a handler fails - judged by the oracle with the strategy in force at the failure, "
+        "outside the Coq model (counted as cases_not_representable)")
 
 _tier_rng = {}
 
@@ -250,7 +296,7 @@ def at_end_cases():
 
 def extra_cases(tier):
     rng = random.Random(C.seed() * 15485863 + 5)
-    return at_end_cases() + tree_cases(rng, 10 if tier == "quick" else 150, ["float", "int", "dur", "durmin"])
+    return at_end_cases() + switch_cases() + tree_cases(rng, 10 if tier == "quick" else 150, ["float", "int", "dur", "durmin"])
 
 
 def main(tier: str) -> int:
